@@ -997,6 +997,7 @@ class ManifestRecursiveLoader:
         for mpath, relpath, m in self._iter_manifests_for_path(
                 path, recursive=True):
             entries_to_remove = []
+            stale_to_remove = []
             for e in m.entries:
                 if e.tag in ('DIST', 'TIMESTAMP'):
                     # distfiles are not local files, so skip them
@@ -1034,14 +1035,23 @@ class ManifestRecursiveLoader:
                             # the file is going to be hashed again
                             kept.size = 0
                             self.updated_manifests.add(kept_mpath)
+                            # NB: the kept entry may compare equal to
+                            # the duplicate now, so the latter has to
+                            # be removed by identity
+                            stale_to_remove.append(e)
+                            continue
                         # and drop the duplicate
                         entries_to_remove.append(e)
                     else:
                         out[fullpath] = (mpath, e)
 
-            if entries_to_remove:
+            if entries_to_remove or stale_to_remove:
                 for e in entries_to_remove:
                     m.entries.remove(e)
+                if stale_to_remove:
+                    m.entries[:] = [
+                        x for x in m.entries
+                        if not any(x is e for e in stale_to_remove)]
                 self.updated_manifests.add(mpath)
 
         return out
